@@ -146,6 +146,7 @@ def main() -> int:
     timeout_ms = 20000 if a.tier == "quick" else 120000
     _V = Verifier(repo, reg, Spec, timeout_ms=timeout_ms)
     _V.only_clauses = cfg.get("only_clauses")
+    _V.only_obligations = cfg.get("only_obligations")  # key -> label substrings: the obligations of a borrowed function this property is about
     _V.recheck = a.tier == "thorough"  # every discharged obligation is re-proved under a second solver configuration
     keys = expand_keys(repo, reg, pid)
     # functions whose contracts belong to another property but on which this property's statement depends
@@ -199,7 +200,7 @@ def main() -> int:
         sp0 = os.path.join(VERIF, "BOUNDED_STANDINS.json")
         special = [o.split("/")[0] for f in load_known() if f.get("status", "open") == "open" for o in f["obligations"]]
         special += [o.split("/")[0] for b in (json.load(open(sp0))["standins"] if os.path.exists(sp0) else []) for o in b["obligations"]]
-        frontier = list(keys)
+        frontier = [k0 for k0 in keys if k0 not in cfg.get("extra_keys", [])]  # single functions borrowed from another property bring no closure of their own
         for level in range(depth):
             used = sorted({u for k0 in frontier for u in metas.get(k0, {}).get("contracts_used", [])})
             nxt = []
@@ -236,6 +237,12 @@ def main() -> int:
         all_results.append(OblResult(lname, "lemma:" + lname, lname.split("/", 1)[1], "", "lemma",
                                      PROVED if r == _z3.unsat else (REFUTED if r == _z3.sat else UNKNOWN),
                                      seconds=round(time.time() - lt0, 3), reason=str(r) if r != _z3.unknown else s.reason_unknown()).to_json())
+
+    # structural obligations (pyvc/structure.py): the class table and the function bodies read from the sources are what runs --
+    # no module-level patching, no re-binding in class bodies, no special method the model does not account for
+    from pyvc import structure as _structure
+    all_results.extend(_structure.obligations(repo, lambda label, func, clause, status, reason, lineno:
+                                              OblResult(label, func, clause, "", "structure", status, solver="ast-scan", reason=reason, lineno=lineno).to_json()))
 
     # extra (non-symbolic-execution) obligations: syntactic scans etc.
     extra_assumptions: list[str] = []
@@ -281,6 +288,10 @@ def main() -> int:
                 n_obl += 1
             else:
                 undecided.append(f"{r['label']}: {r['reason'][:300]}")
+            continue
+        if r["kind"] == "structure" and r["status"] == ERROR:
+            # the proofs may not be about the running code any more: undecided, never a pass and never a violation
+            undecided.append(f"{r['label']}: {r['reason'][:300]}")
             continue
         if r["kind"] in ("vacuity", "fault") or r["status"] == ERROR:
             faults.append(f"{r['label']}: {r['reason'][:300]}")
